@@ -291,7 +291,7 @@ N("C07", "name lookup through dict.get", (AI, "        if obis_group_cdr in obis
 
 # ------------------------------------------------------------------------------------------------ C08
 KA = "kaifa"
-S("C08", "two names swapped in the three-phase layout", "R1", (KA, "        obis_map.FIELD_CURRENT_L2,\n        obis_map.FIELD_CURRENT_L3,\n        obis_map.FIELD_VOLTAGE_L1,", "        obis_map.FIELD_CURRENT_L3,\n        obis_map.FIELD_CURRENT_L2,\n        obis_map.FIELD_VOLTAGE_L1,"))
+S("C08", "two names swapped in the three-phase layout", "R1|R2|R3", (KA, "        obis_map.FIELD_CURRENT_L2,\n        obis_map.FIELD_CURRENT_L3,\n        obis_map.FIELD_VOLTAGE_L1,", "        obis_map.FIELD_CURRENT_L3,\n        obis_map.FIELD_CURRENT_L2,\n        obis_map.FIELD_VOLTAGE_L1,"))
 S("C08", "single-phase voltage slice [10:11] -> [11:12]", "R1", (KA, "+ item_order_list_3_three_phase[10:11]", "+ item_order_list_3_three_phase[11:12]"))
 S("C08", "voltage L2 scale -1 -> -2", "R2", (KA, "    obis_map.FIELD_VOLTAGE_L2: -1,", "    obis_map.FIELD_VOLTAGE_L2: -2,"))
 S("C08", "rounding to 0 digits", "R3", (KA, "                scaled_value = round(measure.value * (10**scale), abs(scale))\n                dictionary[element_name] = scaled_value\n            else:\n                dictionary[element_name] = measure.value\n\n    return dictionary\n\n\ndef _normalize_parsed_obis",
@@ -300,7 +300,7 @@ S("C08", "multiplication without rounding", "R3", (KA, "                scaled_v
                                                    "                scaled_value = measure.value * (10**scale)\n                dictionary[element_name] = scaled_value\n            else:\n                dictionary[element_name] = measure.value\n\n    return dictionary\n\n\ndef _normalize_parsed_obis"))
 S("C08", "layout selected by >=", "R1", (KA, "(x for x in _field_order_lists if len(x) == len(list_items)), None", "(x for x in _field_order_lists if len(x) >= len(list_items)), None"))
 S("C08", "double-long-unsigned parsed signed", "R5", (CO, "DoubleLongUnsigned = construct.Int32ub", "DoubleLongUnsigned = construct.Int32sb"))
-S("C08", "dispatch swapped", "R5", (KA, "    list_type = frame.information.notification_body.type\n    if list_type == KaifaBodyType.VALUE_ELEMENTS:\n        return _normalize_parsed_value_elements(frame)", "    list_type = frame.information.notification_body.type\n    if list_type == KaifaBodyType.VALUE_ELEMENTS:\n        return _normalize_parsed_obis_elements(frame)"))
+S("C08", "dispatch swapped", "R1|R5", (KA, "    list_type = frame.information.notification_body.type\n    if list_type == KaifaBodyType.VALUE_ELEMENTS:\n        return _normalize_parsed_value_elements(frame)", "    list_type = frame.information.notification_body.type\n    if list_type == KaifaBodyType.VALUE_ELEMENTS:\n        return _normalize_parsed_obis_elements(frame)"))
 S("C08", "OBIS layout scales voltages like currents", "R2", (KA, "            scale = _FIELD_SCALING.get(element_name, None)\n            if scale and isinstance(measure.value, int):\n                scaled_value = round(measure.value * (10**scale), abs(scale))\n                dictionary[element_name] = scaled_value\n            else:\n                dictionary[element_name] = measure.value\n\n    return dictionary\n\n\ndef normalize_parsed_frame",
     "            scale = -3 if element_name in _FIELD_SCALING else None\n            if scale and isinstance(measure.value, int):\n                scaled_value = round(measure.value * (10**scale), abs(scale))\n                dictionary[element_name] = scaled_value\n            else:\n                dictionary[element_name] = measure.value\n\n    return dictionary\n\n\ndef normalize_parsed_frame"))
 N("C08", "scaling by division", (KA, "                scaled_value = round(measure.value * (10**scale), abs(scale))\n                dictionary[element_name] = scaled_value\n            else:\n                dictionary[element_name] = measure.value\n\n    return dictionary\n\n\ndef _normalize_parsed_obis",
